@@ -29,6 +29,7 @@ RecOK == ri > 0 =>
                 /\ Ok(r.ladder = 0 \/ LadderOK(r.z6, r.p, r.q), "ladder.first_frequency_over_powers_of_step")
                 /\ Is(r.list_ok, 1, "ladder.user_list_is_used")
                 /\ Is(r.zc_ok, 1, "ladder.first_frequency_from_zero_crossings")
+                /\ Is(r.if_ok, 1, "ladder.first_frequency_from_instantaneous_frequency")
                 /\ Is(r.same_across_procs, 1, "result.independent_of_worker_count")
                 /\ Is(r.nfreqs_ok, 1, "returned_frequencies.one_per_component"))
       [] r.kind = "zero" -> Is(r.zero_ok, 1, "zero_amplitude.reduces_to_unmasked_extraction")
